@@ -63,11 +63,14 @@ class VEvent:
 		self.keep_log = True
 		self.park_at_end = False  # free-running mode: after stop_after waits, block until set() (the real stop() must end the run)
 		self.parked = False
+		self.polls = 0          # is_set() calls
+		self.polls_at_last_wait = 0
 
 	def wait(self, timeout = None):
 		t_ns = int(round((timeout or 0) * 1e9))
 		with self.cond:
 			self.entered += 1
+			self.polls_at_last_wait = self.polls
 			self.cond.notify_all()
 			if self.gated:
 				while self.permits == 0 and not self.flag:
@@ -105,6 +108,7 @@ class VEvent:
 			self.flag = False
 
 	def is_set(self):
+		self.polls += 1
 		return self.flag
 
 	# --- harness side (gated mode) ---
